@@ -101,3 +101,152 @@ pub fn c01(ctx: &mut Ctx) -> CheckResult {
     }
     Ok(())
 }
+
+/// a path of `n` unary operations: operation i reads node i and writes node i+1
+fn path(n: usize, labels: impl Fn(usize) -> u32, closed: bool) -> Diagram {
+    let nodes = if closed { n } else { n + 1 };
+    Diagram {
+        nodes: vec![0; nodes],
+        edges: (0..n).map(|i| crate::model::Edge { label: labels(i), src: vec![i], tgt: vec![(i + 1) % nodes] }).collect(),
+        s: if closed { vec![] } else { vec![0] },
+        t: if closed { vec![] } else { vec![n] },
+    }
+}
+
+/// `n` operations 0 -> 1 sharing nothing (one layer), numbered backwards
+fn wide(n: usize) -> Diagram {
+    Diagram {
+        nodes: vec![0; 2 * n],
+        edges: (0..n).map(|i| crate::model::Edge { label: 3, src: vec![2 * (n - 1 - i)], tgt: vec![2 * (n - 1 - i) + 1] }).collect(),
+        s: (0..n).map(|i| 2 * i).collect(),
+        t: (0..n).map(|i| 2 * i + 1).collect(),
+    }
+}
+
+fn deep_sizes() -> Vec<usize> {
+    vec![300, 8_000]
+}
+
+pub fn c15(ctx: &mut Ctx) -> CheckResult {
+    for n in deep_sizes() {
+        // operations listed in reverse order of dependency, so position and layer differ
+        let d = {
+            let mut d = path(n, |_| 3, false);
+            d.edges.reverse();
+            d
+        };
+        ctx.set_dump(format!("layering of a path of {n} unary operations (listed last-first)"));
+        ctx.sub("scale-layer");
+        let (order, unvisited) = sv::op_layer(&d).map_err(|e| ctx.fail("scale-layer", e))?;
+        ensure!(ctx, unvisited.iter().all(|&u| u == 0), "scale-layer", "path of {n}: some operation flagged unvisited");
+        ensure!(ctx, (0..n).all(|i| order[i] == n - 1 - i), "scale-layer", "path of {n}: operation i should be in layer n-1-i");
+        let (groups, _) = sv::op_layered_operations(&d);
+        ensure!(ctx, groups.len() == n && groups.iter().enumerate().all(|(l, g)| g == &vec![n - 1 - l]), "scale-layer", "path of {n}: layered_operations should list one operation per layer");
+
+        ctx.set_dump(format!("layering of a cycle of {n} unary operations with a tail of {n}"));
+        let mut c = path(n, |_| 3, true);
+        // tail hanging off the cycle: never visited either; and an independent prefix: visited
+        let base = c.nodes.len();
+        c.nodes.extend(vec![0; n + 2]);
+        for i in 0..n {
+            c.edges.push(crate::model::Edge { label: 3, src: vec![if i == 0 { 0 } else { base + i - 1 }], tgt: vec![base + i] });
+        }
+        c.edges.push(crate::model::Edge { label: 3, src: vec![base + n], tgt: vec![base + n + 1] });
+        let (order, unvisited) = sv::op_layer(&c).map_err(|e| ctx.fail("scale-layer", e))?;
+        ensure!(ctx, (0..2 * n).all(|i| unvisited[i] != 0), "scale-layer", "cycle of {n} with tail: an operation on or behind the cycle was reported visited");
+        ensure!(ctx, unvisited[2 * n] == 0 && order[2 * n] == 0, "scale-layer", "cycle of {n} with tail: the independent operation should be visited in layer 0");
+    }
+    for n in [1_000usize, 1_000_000] {
+        ctx.set_dump(format!("layering of {n} independent operations"));
+        let d = wide(n);
+        let (order, unvisited) = sv::op_layer(&d).map_err(|e| ctx.fail("scale-layer", e))?;
+        ensure!(ctx, unvisited.iter().all(|&u| u == 0) && order.iter().all(|&l| l == 0), "scale-layer", "{n} independent operations: all belong to layer 0");
+    }
+    Ok(())
+}
+
+pub fn c16(ctx: &mut Ctx) -> CheckResult {
+    use super::c16::interp_nc;
+    for n in [300usize, 2_500] {
+        // not, neg, not, neg, ...: -(!x) = x + 1
+        let mut d = path(2 * n, |i| if i % 2 == 0 { 6 } else { 3 }, false);
+        d.edges.reverse();
+        ctx.set_dump(format!("eval of a path of {} alternating not/neg operations (listed last-first)", 2 * n));
+        ctx.sub("scale-eval");
+        let (got, log) = sv::op_eval(&d, &[41], &interp_nc);
+        ensure!(ctx, got == Some(vec![41 + n as u64]), "scale-eval", "path of {} not/neg on 41: got {:?}, want {}", 2 * n, got, 41 + n as u64);
+        ensure!(ctx, log.len() == 2 * n, "scale-eval", "path of {}: {} operations applied", 2 * n, log.len());
+        // closed into a cycle: must refuse
+        let c = path(n, |_| 3, true);
+        let (got, _) = sv::op_eval(&c, &[], &interp_nc);
+        ensure!(ctx, got.is_none(), "scale-eval", "cycle of {n} operations evaluated to {:?}", got);
+    }
+    // (eval walks one layer per *possible* depth, so its cost is quadratic in the number of operations)
+    for n in [1_000usize, 10_000] {
+        let d = wide(n);
+        ctx.set_dump(format!("eval of {n} independent neg operations"));
+        let inputs: Vec<u64> = (0..n as u64).collect();
+        let (got, _) = sv::op_eval(&d, &inputs, &interp_nc);
+        let want: Vec<u64> = inputs.iter().map(|x| x.wrapping_neg()).collect();
+        ensure!(ctx, got == Some(want), "scale-eval", "{n} independent neg operations: wrong values");
+    }
+    Ok(())
+}
+
+pub fn c17(ctx: &mut Ctx) -> CheckResult {
+    for n in deep_sizes() {
+        let d = path(n, |_| 3, false);
+        ctx.set_dump(format!("path / cycle of {n} unary operations"));
+        ctx.sub("scale-acyclic");
+        ensure!(ctx, sv::op_is_acyclic(&d) && sv::op_is_acyclic_h(&d), "scale-acyclic", "path of {n} reported cyclic");
+        ensure!(ctx, sv::op_is_monogamous(&d), "scale-acyclic", "path of {n} with its ends as interfaces reported non-monogamous");
+        let (ind, outd) = sv::op_degrees(&d);
+        ensure!(ctx, (0..=n).all(|v| ind[v] == (v > 0) as usize && outd[v] == (v < n) as usize), "scale-acyclic", "path of {n}: wrong degrees");
+        let mut c = path(n, |_| 3, true);
+        ensure!(ctx, !sv::op_is_acyclic(&c) && !sv::op_is_acyclic_h(&c), "scale-acyclic", "cycle of {n} reported acyclic");
+        // a cycle is not monogamous only if interfaces touch it
+        ensure!(ctx, sv::op_is_monogamous(&c), "scale-acyclic", "cycle of {n} without interfaces is monogamous (every node has in- and out-degree 1)");
+        c.s = vec![0];
+        ensure!(ctx, !sv::op_is_monogamous(&c), "scale-acyclic", "cycle of {n} with a source on it reported monogamous");
+    }
+    Ok(())
+}
+
+pub fn c18(ctx: &mut Ctx) -> CheckResult {
+    for n in deep_sizes() {
+        let g = path(n, |_| 3, false);
+        let g = Diagram { s: vec![], t: vec![], ..g };
+        // sub-path [a, b): convex; two ends without the middle: a monomorphism that is not convex
+        let (a, b) = (n / 3, 2 * n / 3);
+        ctx.sub("scale-convex");
+        ctx.set_dump(format!("middle third of a path of {n} operations, and the path minus its middle third"));
+        let mid = Diagram { nodes: vec![0; b - a + 1], edges: (0..b - a).map(|i| crate::model::Edge { label: 3, src: vec![i], tgt: vec![i + 1] }).collect(), s: vec![], t: vec![] };
+        let w: Vec<usize> = (a..=b).collect();
+        let x: Vec<usize> = (a..b).collect();
+        let (outcome, preds) = sv::op_arrow(&mid, &g, (&w, n + 1), (&x, n));
+        ensure!(ctx, outcome == "Ok" && preds == Some((true, true)), "scale-convex", "middle third of a path of {n}: {outcome} {:?}, want a convex monomorphism", preds);
+        // both outer thirds
+        let k1 = a;
+        let k2 = n - b;
+        let mut outer = Diagram { nodes: vec![0; k1 + 1 + k2 + 1], edges: vec![], s: vec![], t: vec![] };
+        let mut w = vec![];
+        let mut x = vec![];
+        for i in 0..=k1 {
+            w.push(i);
+        }
+        for i in 0..=k2 {
+            w.push(b + i);
+        }
+        for i in 0..k1 {
+            outer.edges.push(crate::model::Edge { label: 3, src: vec![i], tgt: vec![i + 1] });
+            x.push(i);
+        }
+        for i in 0..k2 {
+            outer.edges.push(crate::model::Edge { label: 3, src: vec![k1 + 1 + i], tgt: vec![k1 + 2 + i] });
+            x.push(b + i);
+        }
+        let (outcome, preds) = sv::op_arrow(&outer, &g, (&w, n + 1), (&x, n));
+        ensure!(ctx, outcome == "Ok" && preds == Some((true, false)), "scale-convex", "path of {n} minus its middle third: {outcome} {:?}, want a monomorphism that is not convex", preds);
+    }
+    Ok(())
+}
